@@ -451,13 +451,20 @@ def r14_continue_to_else(src):
                     k = e + 1
                     if has_else:
                         # skip else chain
+                        tail_else = None
                         while k < be and st[k].text == "else":
                             b2 = k + 1
+                            plain = st[b2].text == "{"
                             while st[b2].text != "{":
                                 if st[b2].text in ("(", "["):
                                     b2 = match_close(st, b2)
                                 b2 += 1
-                            k = match_close(st, b2) + 1
+                            tail_else = (b2, match_close(st, b2), plain)
+                            k = tail_else[1] + 1
+                        if tail_else and tail_else[2] and tail_else[1] == be - 1:
+                            # a plain `else { .. }` block that is the LAST statement of the region (e.g. the block this
+                            # rule itself produced): tail position again, the same rule applies inside it
+                            k, be = tail_else[0] + 1, tail_else[1]
                     continue
                 if st[k].text in OPEN:
                     k = match_close(st, k)
